@@ -129,6 +129,14 @@ def evaluate(pid, res, data, tag):
         for i in r['R_mis']:
             res.mismatches.append(dict(kind='Corr.C12.c12_mismatch (Handler/Retry.v retry vs middleware.Retry)',
                                        explained_by_violation=i in r['R_vio'], case=describe(chunk[i])))
+    logged = [c for c in good if c['cfg']['log'] and any(e[0] == 1 for e in c['trace'])]
+    for part, chunk in enumerate(C.chunks(logged, 400)):
+        terms = ['(C12L %s %s)' % (case_term(c), C.coq_list([C.coq_N(e[5]) for e in c['trace'] if e[0] == 1])) for c in chunk]
+        r = C.coq_eval(pid, 'cases_%s_log_%d' % (tag, part), HEADER + 'Definition cases : list c12_log_case := %s.\n' % C.coq_list(terms),
+                       [('R_lg', 'c12_log_mismatches cases')])
+        for i in r['R_lg']:
+            res.mismatches.append(dict(kind='Corr.C12.c12_log_mismatch (Logger.Error was not handed the error of the attempt that just failed: model log_errs vs observed ids %s)'
+                                            % [e[5] for e in chunk[i]['trace'] if e[0] == 1], case=describe(chunk[i])))
     routed = [c for c in good if c['mode'] == 'router']
     if routed:
         terms = ['(C12R %s %s %s %s)' % (case_term(c), ['PubAccept', 'PubError'][c.get('pub', 0)], ['Unsettled', 'Acked', 'Nacked'][c['settle']],
